@@ -293,7 +293,16 @@ def c15(tier, seed):
     return c.finish()
 
 
-PROPS = {"C15": c15, "C14": c14, "C11": c11, "C12": c12, "C10": c10, "C13": c13, "C06": c06, "C08": c08, "C09": c09, "C01": c01, "C02": c02, "C03": c03, "C04": c04, "C05": c05}
+def c16(tier, seed):
+    c = Check("C16", tier, seed)
+    c.rule = "MC (NetMC): buffer-managing driver transcribed against Net.tla, queue 2/4, frames of abstract length 0..2, any arrival order/burst, with/without VERSION_1, negative configuration (a received buffer is dropped) must violate conservation; traces: raw driver (transmit_begin/complete, receive_begin/complete, send, poll_*) and buffered driver (send/receive/recycle/can_*) with frame lengths 0..buffer size, queue sizes 2/4/16, out-of-order bursts, 10- and 12-byte headers, all transports and policies"
+    c.assumptions = ["the reference net device writes a non-trivial virtio-net header of the negotiated size and position-coded frame bytes; frames compared by digest"]
+    mc(c, ["Net_q2"] + (["Net_q4"] if tier == "thorough" else []), tier, module="NetMC", negative=["Net_bug_lose_buffer"])
+    device_family(c, "net", "NetTrace", "NetTrace.cfg", seed, tier)
+    return c.finish()
+
+
+PROPS = {"C16": c16, "C15": c15, "C14": c14, "C11": c11, "C12": c12, "C10": c10, "C13": c13, "C06": c06, "C08": c08, "C09": c09, "C01": c01, "C02": c02, "C03": c03, "C04": c04, "C05": c05}
 
 
 def main():
